@@ -37,6 +37,8 @@ var reverseCmd = &cobra.Command{
 		analyser := rcall.NewRCallGraph()
 		file := cmd_util.ReadFile(dependence)
 
+		// the decoder fills what is already there: start from an empty model
+		parsedDeps = nil
 		_ = json.Unmarshal(file, &parsedDeps)
 
 		fmt.Fprintf(output, "start rcall class: %s\n", className)
